@@ -120,32 +120,69 @@ func HTTPClientDo(c *http.Client, req *http.Request) (*http.Response, error) {
 	return &http.Response{StatusCode: o.Status, Header: h, Body: b, Request: req}, nil
 }
 
-// ---- mimetype: one detected type whose facts the harness chooses ----
+// ---- mimetype: the sniffer looks at the first byte ('<' html, '{' json, '%' pdf, anything else binary) - the same
+// classes the real sniffer yields for the bodies the harnesses serve ("<html>...", "{...", "%PDF-", NUL bytes) ----
 
 var (
-	MIMEObj        = new(mimetype.MIME)
-	MIMEParentObj  = new(mimetype.MIME)
-	MIMEIsTextLike bool // the detected type has text/plain in its hierarchy
+	mimeHTML = new(mimetype.MIME)
+	mimeJSON = new(mimetype.MIME)
+	mimePDF  = new(mimetype.MIME)
+	mimeBin  = new(mimetype.MIME)
+	mimeText = new(mimetype.MIME) // text/plain, parent of html and json
 )
 
-func MIMEDetect(in []byte) *mimetype.MIME { return MIMEObj }
+func MIMEDetect(in []byte) *mimetype.MIME {
+	if len(in) == 0 {
+		return mimeText
+	}
+	switch in[0] {
+	case '<':
+		return mimeHTML
+	case '{', '[':
+		return mimeJSON
+	case '%':
+		return mimePDF
+	case 0:
+		return mimeBin
+	}
+	return mimeText
+}
+
 func MIMEParent(m *mimetype.MIME) *mimetype.MIME {
-	if m == MIMEObj && MIMEIsTextLike {
-		return MIMEParentObj
+	if m == mimeHTML || m == mimeJSON {
+		return mimeText
+	}
+	if m == mimePDF {
+		return mimeBin
 	}
 	return nil
 }
-func MIMEIs2(m *mimetype.MIME, want string) bool {
-	if m == MIMEParentObj {
-		return want == "text/plain"
-	}
-	return MIME == want
-}
+
 func MIMEString2(m *mimetype.MIME) string {
-	if m == MIMEParentObj {
-		return "text/plain"
+	switch m {
+	case mimeHTML:
+		return "text/html; charset=utf-8"
+	case mimeJSON:
+		return "application/json"
+	case mimePDF:
+		return "application/pdf"
+	case mimeBin:
+		return "application/octet-stream"
+	case mimeText:
+		return "text/plain; charset=utf-8"
 	}
-	return MIME
+	return MIME // objects not created by the sniffer model (C06 harness)
+}
+
+func MIMEIs2(m *mimetype.MIME, want string) bool {
+	s := MIMEString2(m)
+	for i := 0; i < len(s); i++ {
+		if s[i] == ';' {
+			s = s[:i]
+			break
+		}
+	}
+	return s == want
 }
 
 // ---- spooled temp file ----
